@@ -58,6 +58,26 @@ def drive_and_judge(ctx, scs, shards):
     return s, nlines
 
 
+def rider_lifecycle(ctx):
+    """The derived CRDs as the live definition / offered reconcilers apply them (module XrdLifecycle, check X02): across XRD
+    edits, version changes and delete + re-create under the same name on ONE long-lived reconciler, every CRD write carries
+    the rendering of the XRD the reconcile read and a controller reference to the current XRD (formulas Faithful.*,
+    AfterReconcile.Crd of MonXrdLifecycle.tla)."""
+    from checks import x02
+    sub = ctx.sub("xrdlifecycle")
+    scs, st, tr = [], 0, 0
+    for name, n in [("quick_recreate", 400 if ctx.quick else 6000), ("quick_ver", 300 if ctx.quick else 10 ** 7)]:
+        mc = sub.model_check("MCXrdLifecycle", "MCXrdLifecycle_%s.cfg" % name, sub="mc_" + name, workers=4, timeout=900)
+        scs += [{"id": "%s-%s-%07d" % (PID, name, i), "hist": h} for i, h in sub.sample_lines_stratified(mc["emitted_file"], n, mc["emitted"], key=x02.feats)]
+        st += mc["states"]
+        tr += mc["transitions"]
+    s, n = x02.drive_and_judge(sub, scs, shards=4, binp=x02.build(sub))
+    for v in sub.violations:
+        if v["formula"].startswith("Faithful") or v["formula"].startswith("AfterReconcile.Crd"):
+            ctx.violations.append(v)
+    return dict(states=st, transitions=tr, runs=s["runs"], events=n, formulas=["Faithful.Write", "Faithful.OwnCrd", "Faithful.XrdSpecKept", "AfterReconcile.Crd"])
+
+
 def run(ctx):
     cfg = "MCXCRD_quick.cfg" if ctx.quick else "MCXCRD_thorough.cfg"
     # -seed: family "mix" draws its random points of the full product with TLC's RandomSubset
@@ -66,7 +86,9 @@ def run(ctx):
                          extra=["-seed", str(ctx.seed)])
     scs = load_scenarios(ctx, mc["emitted_file"])
     s, nlines = drive_and_judge(ctx, scs, 8)
+    lc = rider_lifecycle(ctx)
     ctx.cov.update(dict(
+        lifecycle_rider=lc,
         states=mc["states"], transitions=mc["transitions"], traces_validated_against_impl=s["vectors"],
         samples=(s.get("samples") or [])[:2], model_cfg=cfg, vectors_emitted=mc["emitted"], vectors_replayed=s["vectors"],
         per_family=s["families"], outcome_counts=s["outcomes"], antecedent_counts=s["antecedents"],
@@ -97,6 +119,11 @@ def run(ctx):
 def replay(ctx, path):
     with open(path) as f:
         sc = json.load(f)
+    if isinstance(sc.get("hist"), list):      # a schedule of the lifecycle rider
+        from checks import x02
+        x02.replay(ctx, path)
+        ctx.violations = [v for v in ctx.violations if v["formula"].startswith("Faithful") or v["formula"].startswith("AfterReconcile.Crd")]
+        return
     s, nlines = drive_and_judge(ctx, [sc], 1)
     ctx.cov.update(dict(states=1, transitions=1, traces_validated_against_impl=s["vectors"], samples=(s.get("samples") or [sc])[:1],
                         events=nlines, outcome_counts=s["outcomes"], drift=s["drift"]))
